@@ -1,7 +1,7 @@
 """C03 optimization passes keep IR well-formed and never fail internally (DESIGN C03)."""
 PROPERTY = "C03"
 RULE = ("same executions as C02: every real pass run (pipeline of ppci.api.optimize, single passes, random "
-        "sequences up to 24 passes) on vlib.irgen modules (every fourth case: a vlib.cgen C program through c_to_ir); post-condition after each pass that changed the module: "
+        "sequences up to 24 passes) on vlib.irgen modules (every fourth case: a vlib.cgen C program through c_to_ir; one in sixteen each from the Python and C3 front-ends); post-condition after each pass that changed the module: "
         "ppci.irutils.verify_module accepts it and the independent checker vlib.irwf (predecessors from terminators, "
         "naive dominators, def-use from operand fields, bookkeeping == re-derived truth) reports nothing; a pass "
         "raising on well-formed input is a violation; evaluations = post-condition evaluations; non-trivial = "
